@@ -40,7 +40,7 @@ r10 = reg("r10", 64)  # read-only frame pointer to access stack
 is_reg_stack(r10)
 
 R = [r0, r1, r2, r3, r4, r5, r6, r7, r8, r9, r10]
-E = [slc(R[i], 0, 32, "e%d" % i) for i in range(10)]
+E = [slc(R[i], 0, 32, "e%d" % i) for i in range(11)]
 
 pc = reg("pc", 64)
 is_reg_pc(pc)
